@@ -26,10 +26,32 @@ and duplicate free):
   released_lookup_absent_false for the code before 5127b06.
 completed_exactly_once_partial is the loop step from which the global theorem is built; the
 step-level lemmas about lookups are in Lemmas/RelMgrHandlesSteps.lean.
+
+VECTOR LEVEL (Model/RelMgrVec.lean, Lemmas/RelMgrVec.lean): the members databases as members_database.hpp
+has them — one sorted vector per type, binary-search `find`, entries marked in place, and `add()` walking
+an iterator range of that vector WHILE the completion callback calls `remove()` on it.
+  vector_machine_refines          (vRun c rels ops).abs = run c rels ops for ALL arguments: every theorem above
+                                  holds for the vector machine (vector_machine_completes_exactly_once, …);
+  elements_stable_during_add      nothing the callback does moves, adds or drops an element of any members
+                                  database: same size, same (member_id, relation_pos) at every index;
+  add_loop_follows_live_vector    hence the loop that reads `elem.relation_pos` through the live iterator sees
+                                  exactly the relation positions of the range found before the loop, and the
+                                  iterator never leaves the vector;
+  find_is_equal_range_all_ids, sorted_vector_finds_every_reference
+                                  binary search with `compare_member_id` on the vector sorted with
+                                  `element::operator<` returns exactly the entries of the id — for ALL ids,
+                                  negative ones included (sort order = lookup order);
+  sort_order_is_lookup_order      the same agreement stated on the TRANSLATED source comparators;
+  layout_changes_only_in_first_pass  census of the uses of `m_elements` in the source: only track() and
+                                  prepare_for_lookup() resize or reorder the vector.
+The compiled model (Driver/C11.lean) runs the vector machine (O(log n + range) per operation), so that
+histories with 10^4 … 10^6 members per type are part of the correspondence.
 -/
 import Osmium.Lemmas.RelMgrHandlesSpec
 import Osmium.Lemmas.RelMgrHandlesSteps
+import Osmium.Lemmas.RelMgrVec
 import Osmium.Lemmas.SrcTie
+import Osmium.Generated.C11Layout
 
 namespace Osmium.RelMgr.C11
 
@@ -291,6 +313,119 @@ theorem query_events_are_lookups (c : Cfg) (rels : List Rel) (ops : List Op) (k 
     ∃ n, ops[n]? = some (.query k id) ∧ res = (run c rels (ops.take n)).lookup k id :=
   Osmium.RelMgr.query_events_are_lookups c rels ops k id res h
 
+/-! ### Vector level: the sorted element vector, binary search, `remove()` inside the loop of `add()` -/
+
+/-- The vector machine (one sorted `std::vector<element>` per member type, `std::equal_range` by binary
+    search, marks in place, `add()` iterating over an index range of the live vector while the completion
+    callback runs `remove()`) implements the abstract model, for ALL configurations, relation sets and
+    histories — no domain hypothesis. -/
+theorem vector_machine_refines (c : Cfg) (rels : List Rel) (ops : List Op) :
+    (vRun c rels ops).abs = run c rels ops :=
+  vrun_abs c rels ops
+
+/-- `remove()` during `add()`'s iteration does not move elements: one iteration of the loop in
+    `MembersDatabase::add` — decrement, and if the counter reaches zero the whole
+    `handle_complete_relation` (callback, flush, `remove()` of every member, stash removals, handle
+    invalidation, relation removal) — leaves every members database with the same number of elements and the
+    same (member_id, relation_pos) at every index.  (The iterators `add()` holds stay valid and keep
+    pointing at the same entries.) -/
+theorem elements_stable_during_add (c : Cfg) (v : VState) (pos : Nat) (hs : Sorted3 v.abs) (k : Kind) :
+    ((vCompleteStep c v pos).getDb k).size = (v.getDb k).size ∧
+    ∀ i : Nat, (((vCompleteStep c v pos).getDb k)[i]?).map (fun e : Elem => (e.mid, e.rpos)) =
+      ((v.getDb k)[i]?).map (fun e : Elem => (e.mid, e.rpos)) := by
+  have h := vCompleteStep_stable c v pos hs k
+  refine ⟨by simpa using skel_length h, fun i => ?_⟩
+  have := congrArg (fun l => l[i]?) h
+  simpa [skel, List.getElem?_map] using this
+
+/-- The loop of `add()` reads `elem.relation_pos` through its iterator from the vector AS IT IS at that
+    iteration; because of `elements_stable_during_add` this is the loop over the relation positions of the
+    range found before the loop (what the abstract model and all theorems above use), and the iterator
+    never leaves the vector. -/
+theorem add_loop_follows_live_vector (c : Cfg) (k : Kind) (n : Nat) (v : VState) (i : Nat)
+    (hs : Sorted3 v.abs) (hb : i + n ≤ (v.getDb k).size) :
+    (vCompleteLoop c k v i n).abs = completeLoop c v.abs ((((v.getDb k).toList.drop i).take n).map (·.rpos)) :=
+  vCompleteLoop_abs c k n v i hs hb
+
+/-- `find(id)` — two binary searches that only evaluate `compare_member_id` — on a vector sorted by member
+    id returns the index range of exactly the entries with that id; everything before is smaller, everything
+    after larger.  For ALL ids (negative, zero, positive). -/
+theorem find_is_equal_range_all_ids (es : Array Elem) (id : Int) (h : SortedById es.toList) :
+    ((es.toList.drop (vFind es id).1).take ((vFind es id).2 - (vFind es id).1)) = es.toList.filter (fun e => e.mid == id) ∧
+    (∀ e ∈ es.toList.take (vFind es id).1, e.mid < id) ∧
+    (∀ e ∈ es.toList.drop (vFind es id).2, id < e.mid) := by
+  obtain ⟨h1, h2⟩ := vFind_spec es id h
+  have hsr := splitRange_sorted es.toList id h
+  have happ := splitRange_append es.toList id
+  generalize splitRange es.toList id = sr at h1 h2 hsr happ
+  obtain ⟨pre, mid, post⟩ := sr
+  simp only [Prod.mk.injEq] at hsr
+  obtain ⟨hpre, hmid, hpost⟩ := hsr
+  simp only [] at h1 h2 happ
+  rw [h1, h2, ← hmid]
+  have e1 : es.toList.drop pre.length = mid ++ post := by
+    rw [← happ, List.append_assoc, List.drop_left]
+  have e2 : es.toList.take pre.length = pre := by
+    rw [← happ, List.append_assoc, List.take_left]
+  have e3 : es.toList.drop (pre.length + mid.length) = post := by
+    rw [← happ, ← List.length_append, List.drop_left]
+  refine ⟨?_, ?_, ?_⟩
+  · rw [e1, Nat.add_sub_cancel_left, List.take_left]
+  · rw [e2, hpre]; intro e he; simpa using (List.mem_filter.mp he).2
+  · rw [e3, hpost]; intro e he; simpa using (List.mem_filter.mp he).2
+
+/-- Sort order = lookup order: after `prepare_for_lookup` (`std::sort` with `element::operator<` on the
+    tracked entries, all handles still invalid) the binary search with `compare_member_id` finds every
+    tracked reference to an id — whatever the ids are, several different negative ids included. -/
+theorem sorted_vector_finds_every_reference (es : Array Elem) (id : Int) (h0 : ∀ e ∈ es.toList, e.h = 0) :
+    (((vSort es).toList.drop (vFind (vSort es) id).1).take ((vFind (vSort es) id).2 - (vFind (vSort es) id).1)).Perm
+      (es.toList.filter (fun e => e.mid == id)) := by
+  have hs : SortedById (vSort es).toList := by rw [vSort_toList es h0]; exact sortElems_sorted _
+  rw [(find_is_equal_range_all_ids (vSort es) id hs).1, vSort_toList es h0]
+  exact (sortElems_perm _).filter _
+
+/-- every theorem of this file about `run` is a theorem about the vector machine; the two central ones
+    spelled out: exactly-once completion … -/
+theorem vector_machine_completes_exactly_once (c : Cfg) (rels : List Rel) (ops : List Op) (d : Domain c rels ops)
+    (r : Rel) (hr : r ∈ interesting c rels) (hw : wanted c r ≠ []) :
+    (callbacks (vRun c rels ops).abs.events).count r.id = if complete c ops r then 1 else 0 := by
+  rw [vrun_abs]; exact completed_exactly_once c rels ops d r hr hw
+
+/-- … and every wanted member retrievable and identical to the input object inside the callback -/
+theorem vector_machine_members_available (c : Cfg) (rels : List Rel) (ops : List Op) (d : Domain c rels ops)
+    (pos : Nat) (rid : Int) (cont : Nat) (looks : List (Member × Lookup))
+    (h : Event.complete pos rid cont looks ∈ (vRun c rels ops).abs.events) :
+    ∃ r, (interesting c rels)[pos]? = some r ∧ rid = r.id ∧
+      looks.map (fun ml => (ml.1.kind, ml.1.ref)) = (wanted c r).filter (fun w => w.2 ≠ 0) ∧
+      ∀ ml ∈ looks, ∃ o ∈ seenObjs c ops, o.kind = ml.1.kind ∧ o.id = ml.1.ref ∧ ml.2 = .found o := by
+  rw [vrun_abs] at h; exact members_available_in_callback c rels ops d pos rid cont looks h
+
+/-- the hypothesis `Sorted3` of the vector-level theorems holds from `prepare_for_lookup` on: after the
+    first pass … -/
+example (c : Cfg) (rels : List Rel) : Sorted3 (vFirstPass c rels).abs := by
+  rw [vFirstPass_abs]; exact firstPass_sorted3 c rels
+
+/-- … and it is kept by every iteration of the loop in `add()` -/
+example (c : Cfg) (v : VState) (pos : Nat) (hs : Sorted3 v.abs) : Sorted3 (vCompleteStep c v pos).abs := by
+  rw [vCompleteStep_abs c v pos hs]; exact completeStep_sorted3 c _ pos hs
+
+/-- a vector with two different negative ids (and handles still invalid): hypotheses of
+    `sorted_vector_finds_every_reference` -/
+example : ∀ e ∈ (#[⟨-1, some 0, 0, 0⟩, ⟨-2, some 0, 1, 0⟩, ⟨5, some 1, 0, 0⟩] : Array Elem).toList, e.h = 0 := by decide
+
+/-- Source census (Generated/C11Layout.lean, regenerated from members_database.hpp on every run): the only
+    member functions that change the LAYOUT of `m_elements` (its size or the position of an entry) are
+    `track()` and `prepare_for_lookup()` — both first-pass only (`assert(m_init_phase)`).  In particular
+    nothing reachable from the completion callback (`remove()`, `get_object()`, `count()`, `find()`) resizes or
+    reorders the vector `add()` is iterating over: the source-side premise of `elements_stable_during_add`
+    (a syntactic census of the direct uses of the member; the behaviour itself is the correspondence's job). -/
+theorem layout_changes_only_in_first_pass :
+    ∀ u ∈ Generated.C11Layout.uses, u.changesLayout = true → u.fn = "track" ∨ u.fn = "prepare_for_lookup" := by
+  decide
+
+/-- the census found the vector: declaration, `find`, `size`, `count`, `track`, `prepare_for_lookup`, … -/
+example : 6 ≤ Generated.C11Layout.uses.length ∧ (Generated.C11Layout.uses.filter (·.changesLayout)).length = 2 := by decide
+
 /-! ### F7: lookups after release -/
 
 /-- FULL STATEMENT of the clause "released objects are reported as absent": no `get_member_*`
@@ -449,6 +584,31 @@ theorem src_tie_compare_member_id (a b : Src.MembersDatabase.MembersDatabaseComm
   simp [Src.MembersDatabase.MembersDatabaseCommon.compare_member_id.op_call_element_element, SrcTie.elemOfSrc]
 
 example : Src.MembersDatabase.MembersDatabaseCommon.element.typed ⟨-5, 18446744073709551615, 3, ⟨0⟩⟩ = true := by decide
+
+/-- Sort order = lookup order, on the translated source: whenever the comparison `find()` searches with
+    (`compare_member_id`) puts `a` before `b`, so does the comparison `prepare_for_lookup()` sorts with
+    (`element::operator<`); and two elements that `operator<` orders are never ordered the other way round by
+    `compare_member_id`.  This is what makes the sorted vector partitioned for `std::equal_range` — for all
+    member ids, negative ones included. -/
+theorem sort_order_is_lookup_order (a b : Src.MembersDatabase.MembersDatabaseCommon.element) :
+    (Src.MembersDatabase.MembersDatabaseCommon.compare_member_id.op_call_element_element a b = true →
+      Src.MembersDatabase.MembersDatabaseCommon.element.op_lt_element a b = true) ∧
+    (Src.MembersDatabase.MembersDatabaseCommon.element.op_lt_element a b = true →
+      Src.MembersDatabase.MembersDatabaseCommon.compare_member_id.op_call_element_element b a = false) := by
+  -- directly on the translated text (not through `src_tie_element_lt`), so that it is its own obligation
+  by_cases h1 : a.member_id < b.member_id <;> by_cases h2 : b.member_id < a.member_id <;>
+  by_cases h3 : a.member_num < b.member_num <;> by_cases h4 : b.member_num < a.member_num <;>
+  by_cases h5 : a.relation_pos < b.relation_pos <;>
+    simp [Src.MembersDatabase.MembersDatabaseCommon.element.op_lt_element,
+      Src.MembersDatabase.MembersDatabaseCommon.compare_member_id.op_call_element_element, *] <;> omega
+
+/-- both directions are used: ids -2 and -1 (two different negative ids) are ordered by both comparisons the same way -/
+example :
+    Src.MembersDatabase.MembersDatabaseCommon.compare_member_id.op_call_element_element ⟨-2, 0, 1, ⟨0⟩⟩ ⟨-1, 0, 0, ⟨0⟩⟩ = true ∧
+    Src.MembersDatabase.MembersDatabaseCommon.element.op_lt_element ⟨-2, 0, 1, ⟨0⟩⟩ ⟨-1, 0, 0, ⟨0⟩⟩ = true := by decide
+
+example : Src.MembersDatabase.MembersDatabaseCommon.element.typed ⟨-2, 0, 1, ⟨0⟩⟩ = true := by decide
+
 
 end SrcTies
 
